@@ -342,6 +342,11 @@ def refuse_case(rng, k):
 
 
 # ------------------------------------------------------------------ helpers for the exact side
+def far(a, b, tol):
+    """NaN-safe |a-b| > tol"""
+    return not bool(np.all(np.abs(np.asarray(a) - np.asarray(b)) <= tol))
+
+
 def vdot(a, b):
     return a[0] * b[0] + a[1] * b[1] + a[2] * b[2]
 
@@ -422,9 +427,14 @@ def run_tcd(c, rec):
     out = r.array.reshape(-1)
     if r.nvdim != 1 or r.mesh != f.mesh or out.size != sh[0] * sh[1]:
         rec["oracle"].append("density-not-a-scalar-field-on-the-same-mesh")
-    if not np.all(np.isfinite(out)):
-        rec["oracle"].append("density-not-finite")
     h1, h2 = c["cell"]
+    if not np.all(np.isfinite(out)):
+        risky = c["method"] == "berg-luescher" and bl_table(o, sh)[1]
+        if not risky:
+            rec["oracle"].append("density-not-finite")
+        # exactly antiparallel neighbours: the lattice charge is undefined (exceptional configuration)
+        rec.update(obs=dict(nonfinite=True, exceptional=bool(risky)), key=f'tcd/{c["method"]}/nonfinite/{risky}')
+        return
     if c["method"] == "continuous":
         p = per_flags(c, names)
         coq = (f'CTcdCont {g.nl(sh)} {g.q(h1)} {g.q(h2)} {g.b(p[0])} {g.b(p[1])} {g.q(F(C4))} '
@@ -437,7 +447,7 @@ def run_tcd(c, rec):
                f'{coq_q4(tab)} {g.ql(fracs(out))}')
     if c["tex"] == "uniform":
         sc = 1 / (fl(h1) * fl(h2))
-        if np.abs(out).max() > 1e-12 * sc:
+        if far(out, 0.0, 1e-12 * sc):
             rec["oracle"].append("uniform-field-nonzero-density")
     nmask = sum(1 for b in c["valid"] if not b)
     mk = "".join("1" if b else "0" for b in c["valid"]) if len(c["valid"]) <= 9 else str(nmask)
@@ -459,7 +469,7 @@ def run_charge(c, rec):
     q = d.array.reshape(-1)
     if c["absolute"] and r < 0:
         rec["oracle"].append("absolute-charge-negative")
-    if c["tex"] == "uniform" and abs(r) > 1e-12:
+    if c["tex"] == "uniform" and far(r, 0.0, 1e-12):
         rec["oracle"].append("uniform-field-nonzero-charge")
     coq = f'CCharge {g.b(c["absolute"])} {g.nl(sh)} {g.q(dV)} {g.ql(fracs(q))} {g.q(F(float(r)))}'
     rec.update(obs=dict(charge=js(float(r))), coq=coq,
@@ -707,15 +717,15 @@ def run_meta(c, rec):
             if d1.shape != d0.shape:
                 d1 = None
             scale_q = float(np.abs(d0).sum() * dA) + 1.0
-            if abs(q1 - factor_charge * q0) > RTOL * scale_q:
+            if far(q1, factor_charge * q0, RTOL * scale_q):
                 rec["oracle"].append(f"{name}-changes-charge-{m}")
             if d1 is not None and factor_density is not None:
                 scale_d = 4.0 / dA
-                if np.abs(d1 - factor_density * d0).max() > RTOL * scale_d * abs(factor_density):
+                if far(d1, factor_density * d0, RTOL * scale_d * abs(factor_density)):
                     rec["oracle"].append(f"{name}-changes-density-{m}")
-        obs[name] = {m: js(other[m][1]) for m in other}
+        obs[name] = {m: repr(other[m][1]) for m in other}
 
-    obs["base"] = {m: js(base[m][1]) for m in base}
+    obs["base"] = {m: repr(base[m][1]) for m in base}
     # global proper rotation of all vectors
     Rm = np.array([[fl(x) for x in row] for row in c["rot"]])
     compare("rotation", with_array(f, f.array @ Rm.T))
@@ -739,7 +749,7 @@ def run_meta(c, rec):
             d0 = base[m][0]
             st, d1 = attempt(lambda: dft.topological_charge_density(with_array(f, f.array, mesh2), method=m))
             if st == "ok" and d0 is not None and not (m == "berg-luescher" and risky):
-                if np.abs(d1.array.reshape(sh) * s * s - d0).max() > RTOL * 4.0 / base_save:
+                if far(d1.array.reshape(sh) * s * s, d0, RTOL * 4.0 / base_save):
                     rec["oracle"].append(f"mesh-rescale-density-not-1-over-s2-{m}")
     # quarter turn(s) of the sample (mesh and vectors together); only for default x,y naming
     if c.get("dims") in (None, ["x", "y"]):
@@ -751,18 +761,18 @@ def run_meta(c, rec):
                 if other[m][1] is None or base[m][1] is None or (m == "berg-luescher" and risky):
                     continue
                 scale_q = float(np.abs(base[m][0]).sum() * dA) + 1.0
-                if abs(other[m][1] - base[m][1]) > RTOL * scale_q:
+                if far(other[m][1], base[m][1], RTOL * scale_q):
                     rec["oracle"].append(f"quarter-turn-changes-charge-{m}")
-                if np.abs(np.rot90(base[m][0], k=k) - other[m][0]).max() > RTOL * 4.0 / dA:
+                if far(np.rot90(base[m][0], k=k), other[m][0], RTOL * 4.0 / dA):
                     rec["oracle"].append(f"quarter-turn-changes-density-{m}")
-            obs["quarter"] = {m: js(other[m][1]) for m in other}
+            obs["quarter"] = {m: repr(other[m][1]) for m in other}
         else:
             skipped.append("quarter-turn")
     # uniform field
     u = np.tile(f.array[0, 0] if np.any(f.array[0, 0]) else np.array([1.0, 2.0, -2.0]), (*sh, 1))
     uni = both_charges(with_array(f, u))
     for m in uni:
-        if uni[m][1] is None or abs(uni[m][1]) > 1e-12 or np.abs(uni[m][0]).max() > 1e-12 * 4 / dA:
+        if uni[m][1] is None or far(uni[m][1], 0.0, 1e-12) or far(uni[m][0], 0.0, 1e-12 * 4 / dA):
             rec["oracle"].append(f"uniform-field-nonzero-{m}")
     # absolute charge bounds the signed one
     for m in ("continuous", "berg-luescher"):
@@ -786,9 +796,9 @@ def run_integer(c, rec):
         rec["oracle"].append("charge-raised")
         rec.update(obs=dict(err=str(qb)), key="integer/err")
         return
-    if abs(qb - round(qb)) > 1e-6:
+    if not math.isfinite(qb) or abs(qb - round(qb)) > 1e-6:
         rec["oracle"].append("berg-luescher-charge-not-an-integer")
-    if abs(round(qb)) != abs(c["N"]):
+    elif abs(round(qb)) != abs(c["N"]):
         rec["oracle"].append("berg-luescher-charge-is-not-the-winding-number")
     if abs(qc_ - qb) > 0.35 * abs(c["N"]):
         rec["oracle"].append("continuous-charge-far-from-lattice-charge")
